@@ -75,14 +75,48 @@ def b44_out(b):
                      opt(lambda: tx(b.PrivateKey().ToExtended())), opt(lambda: tx(b.PrivateKey().ToWif()))])
 
 
+def level_view(b):
+    """what the object says about its own level, next to the depth of the BIP-32 node it wraps (public accessors only):
+    (Level() as int, the set of levels for which IsLevel() holds, Bip32Object().Depth())"""
+    from bip_utils import Bip44Levels
+    return int(b.Level()), sorted(int(l) for l in Bip44Levels if b.IsLevel(l)), int(b.Bip32Object().Depth())
+
+
+def level_defect(b):
+    """None when Level() / IsLevel() agree with the depth (C07: 'after any successful sequence the object's level equals its depth'),
+    otherwise a short description"""
+    try:
+        lv, isl, d = level_view(b)
+    except Exception as ex:  # noqa   Level() of an object the constructor admitted must not raise
+        return "Level()/IsLevel() raised %s on an object at depth %s" % (type(ex).__name__, opt(lambda: str(int(b.Bip32Object().Depth()))))
+    if lv != d or isl != [d]:
+        return "Level()=%d IsLevel-true-for=%s depth=%d" % (lv, isl, d)
+    return None
+
+
 def _bip44(fam, mem, var, seed, ops):
     cls, en, getter = FAM[fam]
     coin = en[mem]
     conf = getter.GetConfig(coin)
     with Toggle(conf, "" if var == "-" else var):
         b = cls.FromSeed(unhx(seed), coin)
-        for op in ([] if ops == "-" else ops.split(",")):
+        trail = [(b, "FromSeed", hx(b.PublicKey().RawCompressed().ToBytes()))]
+        ops = [] if ops == "-" else ops.split(",")
+        for k, op in enumerate(ops):
+            bad = level_defect(b)
+            if bad:       # the level the object reports is not its depth: every later guard acts on the wrong level
+                return "\x00err LevelIsNotDepth after %s: %s" % (",".join(ops[:k]) or "FromSeed", bad)
             b = apply_op(cls, coin, b, op)
+            if all(b is not t[0] for t in trail):
+                trail.append((b, ",".join(ops[:k + 1]), hx(b.PublicKey().RawCompressed().ToBytes())))
+        # every object met on the way (each is the result of a successful sequence) still reports level = depth and still holds its key:
+        # deriving from an object, or the default path, does not move the object it was called on
+        for o, how, pub in trail:
+            bad = level_defect(o)
+            if bad is None and hx(o.PublicKey().RawCompressed().ToBytes()) != pub:
+                bad = "public key of the object changed from %s to %s" % (pub, hx(o.PublicKey().RawCompressed().ToBytes()))
+            if bad:
+                return "\x00err LevelIsNotDepth object reached by %s, observed after %s: %s" % (how, ",".join(ops) or "FromSeed", bad)
         return b44_out(b)
 
 
